@@ -5,11 +5,12 @@ from mc import core
 from mc.ref import refpsl
 
 PROP = "C13"
+LONG = "worshipful-company-of-international-tea-merchants.co.uk"  # 55 chars; with a subdomain > 63
 SCHEMES = ["http", "https"]
 PORTS = ["", "8080", "80", "443"]
 HOSTS = ["fr", "lemonde.fr", "www.lemonde.fr", "a.www.lemonde.fr", "xlemonde.fr", "evil.com", "fr.evil.com",
-         "lemonde.fr.evil.com", "uk", "co.uk", "a.co.uk", "b.a.co.uk", "c.b.a.co.uk", "a.uk"]
-PATHS = ["", "/", "/a", "/a/", "/a/b", "/a/b/c", "/ab", "/a/bc"]
+         "lemonde.fr.evil.com", "uk", "co.uk", "a.co.uk", "b.a.co.uk", "c.b.a.co.uk", "a.uk", LONG, "members-area." + LONG]
+PATHS = ["", "/", "/a", "/a/", "/a/b", "/a/b/c", "/ab", "/a/bc", "/a%2Fb"]
 TAILS = [("", ""), ("q=1", ""), ("", "f"), ("q=1", "f")]
 _IDX = None
 
